@@ -7,7 +7,7 @@ wt=/tmp/confirm/$name
 mkdir -p /tmp/confirm; rm -rf $wt; git -C /repo worktree prune
 git -C /repo worktree add --detach $wt HEAD >/dev/null 2>&1 || { echo "$name: worktree failed"; exit 2; }
 trap "git -C /repo worktree remove --force $wt >/dev/null 2>&1; rm -rf $wt" EXIT
-build=$(python3 -c "import json;print(json.load(open('$src/meta.json'))['demo_build'])")
+build=$(python3 -c "import json,re;print(re.sub(r'\s{2,}\(.*$','',json.load(open('$src/meta.json'))['demo_build']).strip())")
 # demo on pristine
 cmd=$(echo "$build" | sed "s#\$GLM#$wt#g; s#demo\.cpp#$src/demo.cpp#; s#-o [^ ]*#-o $wt/demo_bin#")
 ( cd $wt && eval "$cmd" ) >/tmp/confirm/$name.log 2>&1 || { echo "$name: demo does not compile on pristine"; exit 1; }
